@@ -448,6 +448,71 @@ def stream_asyncio(ctx):
             break
 
 
+def stream_two_loops(ctx):
+    """coroutine sink used from two event loops (one per thread): `await logger.complete()` waits for the tasks of ITS
+    loop and returns although the other loop's tasks are still pending (Queue/Async.lean)"""
+    import loguru._logger as lg
+    rng = ctx.rng.fork("loops")
+    for ci in range(ctx.n(6, 120)):
+        r = rng.fork("c%d" % ci)
+        na, nb, spin = r.range(1, 4), r.range(1, 3), r.range(0, 3)
+        written, bad, b_view = [], [], []
+        gate, started = threading.Event(), threading.Event()
+
+        async def sink(message, spin=spin):
+            txt = str(message).strip()
+            if txt.startswith("B"):
+                while not gate.is_set():          # the foreign loop's tasks stay pending until the gate opens
+                    await asyncio.sleep(0.001)
+            else:
+                for _ in range(spin):
+                    await asyncio.sleep(0)
+            written.append(txt)
+
+        logger = lg.Logger(core=lg.Core(), exception=None, depth=0, record=False, lazy=False, colors=False, raw=False,
+                           capture=True, patchers=[], extra={})
+        logger.add(sink, format="{message}", catch=False)
+
+        async def bmain():
+            for j in range(nb):
+                logger.info("B-%d" % j)
+            started.set()
+            await logger.complete()
+            b_view.append(sorted(w for w in written if w.startswith("B")))
+
+        loop_b = asyncio.new_event_loop()
+        th = threading.Thread(target=lambda: loop_b.run_until_complete(bmain()), daemon=True)
+
+        async def amain():
+            th.start()
+            while not started.is_set():
+                await asyncio.sleep(0.001)
+            for j in range(na):
+                logger.info("A-%d" % j)
+            try:
+                await asyncio.wait_for(logger.complete(), 5)
+            except asyncio.TimeoutError:
+                bad.append("complete() awaited on one loop did not return within 5 s while %d task(s) of ANOTHER loop were "
+                           "pending: it waits for a foreign loop" % nb)
+            missing = [m for m in ("A-%d" % j for j in range(na)) if m not in written]
+            if missing and not bad:
+                bad.append("await complete() returned before %r (same loop) were written" % (missing,))
+            gate.set()
+
+        asyncio.run(amain())
+        th.join(10)
+        loop_b.close() if not th.is_alive() else None
+        if th.is_alive():
+            bad.append("the second loop's complete() did not return within 10 s after its tasks could finish")
+        elif b_view and b_view[0] != sorted("B-%d" % j for j in range(nb)):
+            bad.append("second loop: complete() returned with %r written, expected all %d" % (b_view[0], nb))
+        ctx.case(("loops", na, nb, spin), nontrivial=True)
+        ctx.stat("asyncio:two_loops")
+        if bad:
+            ctx.violation(bad[0], {"stream": "two_loops", "na": na, "nb": nb, "spin": spin, "violations": bad})
+            break
+
+
 def stream_shapes(ctx):
     """message shapes the queue items could be confused with: empty text, texts equal to str(None)/str(True),
     falsy/odd payloads – every accepted message must be written, complete() and remove() must return"""
@@ -690,7 +755,7 @@ def stream_exit(ctx):
 
 
 def run(ctx):
-    for stream in (stream_shapes, stream_payloads, stream_exit, stream_sched, stream_mp, stream_asyncio):
+    for stream in (stream_shapes, stream_payloads, stream_exit, stream_sched, stream_mp, stream_asyncio, stream_two_loops):
         stream(ctx)
         if ctx.violations and getattr(ctx, "search_boost", False):
             return           # enlarged search after a broken obligation: a failing input has been found
